@@ -216,8 +216,10 @@ impl Scheduler {
 
                 QueueState::Panicked => ScheduleState::Panicked,
 
-                // Already in the schedule, waiting for a thread to pick it up
-                QueueState::Pending => ScheduleState::Pending,
+                // Already in the schedule, waiting for a thread to pick it up (a queue that is waiting to be polled is also in the
+                // schedule once it has been woken, so that a thread can take it over if the future is not polled again)
+                QueueState::Pending             |
+                QueueState::WaitingForPoll(_)   => ScheduleState::Pending,
 
                 _=> {
                     // If the queue is in any other state, then we leave it alone
